@@ -116,6 +116,8 @@ class _Alarm(PathTimeout):
 
 
 def _on_alarm(signum, frame):
+    if os.environ.get("VERIF_DEBUG_ALARM"):
+        traceback.print_stack(frame, limit=25, file=sys.stderr)
     raise _Alarm("wall-clock alarm")
 
 
